@@ -104,7 +104,7 @@ def oracle(script: dict, run: Any) -> List[Violation]:
                     continue
                 if (t_eval % MIN) > MIN - tol:
                     continue   # the poll straddles a UTC minute boundary: outside the oracle (see assumptions)
-                want = cron_matches(sp["cron"], shifted(now, off))
+                want = False if sp.get("invalid_cron") else cron_matches(sp["cron"], shifted(now, off))
                 got = [e for e in kicks.get(sid, []) if lo <= e[2] < hi]
                 n_want = 1 if want and sid not in cancelled else 0
                 if len(got) != n_want:
@@ -189,7 +189,7 @@ def probes(script: dict, run: Any) -> Dict[str, int]:
     specs = all_specs(script)
     res = {"cron_sent": 0, "oneshot_sent": 0, "oneshot_boundary_window": 0, "oneshot_already_past": 0, "source_failed_once": int(bool(h.kind("list_fail"))),
            "send_failed_once": int(bool(h.kind("kick_fail"))), "label_source": int(any(s["kind"] == "label" for s in script["sources"])),
-           "added_between_polls": int(bool(h.kind("op_add"))), "long_horizon": int(script["horizon_us"] > 20 * MIN),
+           "added_between_polls": int(bool(h.kind("op_add"))), "unparsable_cron_listed": int(any(sp.get("invalid_cron") for sp in specs.values())), "long_horizon": int(script["horizon_us"] > 20 * MIN),
            "start_on_boundary": int(script["start"]["epoch_us"] % MIN == 0), "entry_task": int(script.get("entry") == "task"), "entry_cli": int(script.get("entry") in ("cli", "cli_skip")),
            "skip_first_run": int(script.get("entry") == "cli_skip")}
     for e in h.kind("kick_call"):
